@@ -274,6 +274,10 @@ class Collections:
                 return E.NONE
             self._set(it, a0, seq(k, items[1:]))
             return E.Some(items[0])
+        if name == "nth" and k == "iter" and len(args) == 2 and E.is_int(it.deref_val(args[1])):
+            n = it.deref_val(args[1])[1]
+            self._set(it, a0, seq(k, items[n + 1:]))
+            return E.Some(items[n]) if 0 <= n < len(items) else E.NONE
         if name == "next_back":
             if not items:
                 return E.NONE
